@@ -161,8 +161,9 @@ def b1(cx):
     fn = m.func("context_cpu::BufferByteArray.update_from_nplike")
     d = Defs(fn)
     calls = [c for c in own_nodes(fn) if isinstance(c, ast.Call) and call_name(c) == "update_from_native" and norm(c.func.value) == "self"]
-    cx.need(len(calls) == 1 and len(calls[0].args) == 4, "BufferByteArray.update_from_nplike: delegation to update_from_native not found")
-    a = calls[0].args
+    cx.need(len(calls) == 1, "BufferByteArray.update_from_nplike: delegation to update_from_native not found")
+    a = [get_arg(calls[0], k, nm) for k, nm in enumerate(("offset", "source", "source_offset", "nbytes"))]
+    cx.need(all(x is not None for x in a), "BufferByteArray.update_from_nplike: arguments of the delegation not recognised")
     vname = param_names(fn)[3]
     src_ok = isinstance(a[1], ast.Attribute) and a[1].attr == "data" and _value_derived(d, norm(a[1].value), vname)
     nb_ok = isinstance(a[3], ast.Attribute) and a[3].attr == "nbytes" and _value_derived(d, norm(a[3].value), vname)
